@@ -29,6 +29,7 @@ Line driver for C03 (`wv_c03`). Ops (io2 is always the end of the given buffer):
   `StdCall.classify` for one call of a compiled decoder.
 * `match7 <hexbuf> <io0> <iop> <closed> <a>` → `<ret> <ok|unsafe> <shift-ok|invalid-shift>`;
   `from_reader <hexW> <io0W> <iopW> <length> <hexR> <io0R> <iopR>` → `<ret> <iopW'> <iopR'> <hexW'> <ok|unsafe>`.
+* `subslice <i|j|ij> <len|NULL> <i> <j>` → `<offset|null> <len>`: `wuffs_base__slice_u8__subslice_*`.
 -/
 open WuffsVerif.Line
 open WuffsVerif
@@ -230,6 +231,16 @@ def step (f : List String) : String :=
       let r := IOHelpers.match7 (mkMem b io0) iop (closed == "1") a.toUInt64
       s!"{r.ret} {okWord r.mem.ok} " ++ (if r.shiftOk then "shift-ok" else "invalid-shift")
     | _, _, _, _ => "bad-op"
+  | ["subslice", kind, ln, i, j] =>
+    match (if ln == "NULL" then some (IOHelpers.CSlice.mk none 0) else ln.toNat?.map (fun l => IOHelpers.CSlice.mk (some 0) l)),
+        i.toNat?, j.toNat? with
+    | some s, some i, some j =>
+      let r := if kind == "i" then IOHelpers.subsliceI s i else if kind == "j" then IOHelpers.subsliceJ s j
+        else IOHelpers.subsliceIJ s i j
+      (match r.off with
+       | none => s!"null {r.len}"
+       | some o => s!"{o} {r.len}") ++ (if r.nullArith then " null-arith" else "")
+    | _, _, _ => "bad-op"
   | ["from_reader", hw, io0w, iopw, len, hr, io0r, iopr] =>
     match fromHex hw, io0w.toNat?, iopw.toInt?, len.toNat?, fromHex hr, io0r.toNat?, iopr.toInt? with
     | some bw, some io0w, some iopw, some len, some br, some io0r, some iopr =>
